@@ -4,35 +4,35 @@
    something_went_wrong panic carrying e (an unwinding panic, never another outcome). *)
 From Coq Require Import NArith List Bool String.
 From BM Require Import Base.Outcome Base.Prims Base.Layout Spec.CastSpec.
-From BM Require Import Proofs.CastValue Proofs.CastPanicking Proofs.CastChecked.
+From BM Require Import Proofs.CastValue Proofs.CastPanicking Proofs.CastChecked Proofs.RootTwins.
 From BM.Gen Require Internal Root Checked.
 From BM Require Import Base.Own Model.Alloc Proofs.AllocGen.
 Open Scope string_scope.
 Open Scope N_scope.
 
 Theorem C11_cast_slice : forall ENV A B s, twin "cast_slice" (Root.try_cast_slice ENV A B s) (Root.cast_slice ENV A B s).
-Proof. exact cast_slice_twin. Qed.
+Proof. exact root_cast_slice_twin. Qed.
 
 Theorem C11_cast_slice_mut : forall ENV A B s, twin "cast_slice_mut" (Root.try_cast_slice_mut ENV A B s) (Root.cast_slice_mut ENV A B s).
-Proof. exact cast_slice_mut_twin. Qed.
+Proof. exact root_cast_slice_mut_twin. Qed.
 
 Theorem C11_cast_ref : forall ENV A B p, wf_ty A -> wf_ty B -> valid_ref A p -> twin "cast_ref" (Root.try_cast_ref ENV A B p) (Root.cast_ref ENV A B p).
-Proof. exact cast_ref_twin. Qed.
+Proof. exact root_cast_ref_twin. Qed.
 
 Theorem C11_cast_mut : forall ENV A B p, wf_ty A -> wf_ty B -> valid_ref A p -> twin "cast_mut" (Root.try_cast_mut ENV A B p) (Root.cast_mut ENV A B p).
-Proof. exact cast_mut_twin. Qed.
+Proof. exact root_cast_mut_twin. Qed.
 
 Theorem C11_from_bytes : forall ENV T s, twin "from_bytes" (Root.try_from_bytes ENV T s) (Root.from_bytes ENV T s).
-Proof. exact from_bytes_twin. Qed.
+Proof. exact root_from_bytes_twin. Qed.
 
 Theorem C11_from_bytes_mut : forall ENV T s, twin "from_bytes_mut" (Root.try_from_bytes_mut ENV T s) (Root.from_bytes_mut ENV T s).
-Proof. exact from_bytes_mut_twin. Qed.
+Proof. exact root_from_bytes_mut_twin. Qed.
 
 Theorem C11_pod_read_unaligned : forall ENV T s, twin "pod_read_unaligned" (Root.try_pod_read_unaligned ENV T s) (Root.pod_read_unaligned ENV T s).
-Proof. exact pod_read_unaligned_twin. Qed.
+Proof. exact root_pod_read_unaligned_twin. Qed.
 
 Theorem C11_cast : forall ENV A B a, twin "cast" (Root.try_cast ENV A B a) (Root.cast ENV A B a).
-Proof. exact cast_twin. Qed.
+Proof. exact root_cast_twin. Qed.
 
 Theorem C11_checked_cast_slice : forall ENV A B s, ctwin "cast_slice" (Checked.try_cast_slice ENV A B s) (Checked.cast_slice ENV A B s).
 Proof. exact checked_cast_slice_twin. Qed.
